@@ -33,6 +33,9 @@ S = 1.0 / 3600.0
 VALUES = [0.0, S, -S, 0.5, -0.5, 0.3, -0.3, 1.0, -1.0, 2.0 + 1.0 / 60, -(2.0 + 1.0 / 60),
           59.0 + 59.0 / 60 + 59.999999 / 3600, -(59.0 + 59.0 / 60 + 59.999999 / 3600), 60.0, 90.0, 180.0,
           359.0 + 59.0 / 60 + 59.0 / 3600, 360.0]
+# near-twins at a large angle: their differences (2e-8" ... 5e-7") are far above the 1e-8" tolerance but tiny relative to the
+# operands (a "relative" zero test swallows them); explored among themselves (alphabet 'twins')
+TWIN_VALUES = [300.0, 300.0 + 2e-8 / 3600, 300.0 + 5e-7 / 3600, -(300.0 + 1e-7 / 3600), -300.0, 300.0 - 3e-8 / 3600]
 import numpy as _np
 KS = [2, -1, 0.5, 3, -0.25, _np.float64(-2.0), _np.int64(3)]
 MODS = [360, 90, 1, -360, -90.0, 0.5, _np.float64(-1.0), _np.int64(180)]
@@ -121,6 +124,21 @@ def transitions(a, ka, leaves):
         yield ('ne ' + lab, lambda b=b: a != b, da != db, None, 'cmp')
         yield ('lt ' + lab, lambda b=b: a < b, da < db, None, 'cmp')
         yield ('gt ' + lab, lambda b=b: a > b, da > db, None, 'cmp')
+    # augmented assignment (x *= k, x += b, ...): the statement's value is what x is bound to afterwards; it is applied to a copy
+    # so that a class that chooses to update in place does not disturb the exploration
+    import copy as _copy
+    import operator as _op
+    for k in KS[:5]:
+        yield ('imul %r' % k, lambda k=k: _op.imul(_copy.copy(a), k), da * k, ka, 'val')
+        yield ('idiv %r' % k, lambda k=k: _op.itruediv(_copy.copy(a), k), da / k, ka, 'val')
+    for (v, kb, b) in leaves[::7]:
+        if b is not None:
+            db = den(b)
+            yield ('iadd %s:%r' % (kb, v), lambda b=b: _op.iadd(_copy.copy(a), b), da + db, ka, 'val')
+            yield ('isub %s:%r' % (kb, v), lambda b=b: _op.isub(_copy.copy(a), b), da - db, ka, 'val')
+    if ka in ('dms', 'ddm'):
+        for k in MODS[:3]:
+            yield ('imod %r' % k, lambda k=k: _op.imod(_copy.copy(a), k), da % k, ka, 'val')
     yield ('neg', lambda: -a, -da, ka, 'val')
     yield ('abs', lambda: abs(a), abs(da), ka, 'val')
     for k in KS:
@@ -225,6 +243,9 @@ def gen_ops(tier, seed):
     for v in VALUES:
         for k in CLASSES:
             yield {'value': v, 'cls': k, 'depth': 3, 'alphabet': 'full'}
+    for v in TWIN_VALUES:
+        for k in CLASSES:
+            yield {'value': v, 'cls': k, 'depth': 1, 'alphabet': 'twins'}
     # operands that reached their value by another legal construction: rebuilt from their text form, public fields
     # assigned after construction, a library result whose fields were then assigned
     for v in [0.0, -S, 0.5, -0.3, 2.0 + 1.0 / 60, -(59.0 + 59.0 / 60 + 59.999999 / 3600), 90.0, 1.0 + 1e-11]:
@@ -242,7 +263,7 @@ _LEAVES = {}
 def ev_ops(case, rec):
     al = case['alphabet']
     if al not in _LEAVES:
-        _LEAVES[al] = all_leaves(VALUES if al == 'full' else [0.0, S, -0.5, 0.3, -(2.0 + 1.0 / 60), 60.0])
+        _LEAVES[al] = all_leaves(VALUES if al == 'full' else TWIN_VALUES if al == 'twins' else [0.0, S, -0.5, 0.3, -(2.0 + 1.0 / 60), 60.0])
         if al == 'forms':
             _LEAVES[al] = _LEAVES[al] + [(v, k, leaf(v, k)) for v in (0.3, -0.5, 60.0, -S) for k in FORM_KINDS]
     rec.nontriv()
